@@ -257,8 +257,13 @@ def gen_case(rng, tier, g):
     kw = {}
     if rng.random() < 0.5:
         kw['buffersize'] = rng.choice([1, 2, 3])
-    return {'prop': PROP, 'machine': 'history', 'op': name, 'tables': tables,
+    case = {'prop': PROP, 'machine': 'history', 'op': name, 'tables': tables,
             'cache': rng.random() < 0.5, 'kw': kw, 'steps': steps}
+    if op.presorted and rng.random() < 0.25:
+        # the operator's inputs are views themselves
+        case['upstream'] = rng.choice(['sort-nocache', 'sort-nocache',
+                                       'sort-nocache-buffered', 'wrap'])
+    return case
 
 
 # ---------------------------------------------------------------------------
@@ -292,9 +297,32 @@ def _typed(tables, rowtypes):
     return out
 
 
+# the views the history machine puts between the sources and the operator
+# (the same in the run under test and in every reference call)
+_UPSTREAM = [None]
+
+
+def _upstream(e, op, srcs):
+    up = _UPSTREAM[0]
+    if up is None:
+        return srcs
+    if up == 'wrap':
+        return [e.wrap(s) for s in srcs]
+    # an uncached sort on the operator's own key: transparent (a stable sort
+    # of a table the operator sorts by the same key anyway), and every pass
+    # over it reads the source again
+    kw = {'cache': False}
+    if up == 'sort-nocache-buffered':
+        kw['buffersize'] = 2
+    if op.key is None:
+        return [e.sort(s, reverse=op.reverse, **kw) for s in srcs]
+    return [e.sort(s, op.key, reverse=op.reverse, **kw) for s in srcs]
+
+
 def _default(e, op, tables, rowtypes=None):
     """Default call on copies of `tables`: list of row lists per view."""
     srcs = [SimTable(t, mode='alias') for t in _typed(tables, rowtypes)]
+    srcs = _upstream(e, op, srcs)
     vs = _views(op.build(e, srcs, {}), op)
     return [_rows(v) for v in vs]
 
@@ -418,8 +446,18 @@ def _apply_edit(table, kind, idx, row):
 
 
 def _run_history(e, case, log, sb, probes):
+    _UPSTREAM[0] = case.get('upstream')
+    try:
+        return _run_history_(e, case, log, sb, probes)
+    finally:
+        _UPSTREAM[0] = None
+
+
+def _run_history_(e, case, log, sb, probes):
     op = OPS[case['op']]
     tables = [dec_table(t) for t in case['tables']]
+    if case.get('upstream'):
+        probes['upstream:' + case['upstream']] = 1
     try:
         _default(e, op, tables)
     except Exception as ex:
@@ -432,7 +470,7 @@ def _run_history(e, case, log, sb, probes):
         kw = {}
     srcs = [SimTable(t, mode='alias', name='s%d' % i)
             for i, t in enumerate(tables)]
-    vs = _views(op.build(e, srcs, kw), op)
+    vs = _views(op.build(e, _upstream(e, op, srcs), kw), op)
     # versions of each source seen at the start of a pass
     versions = [[] for _ in tables]
     completed = {}          # view index -> rows of the first completed pass
